@@ -173,6 +173,10 @@ def check(rep):
             items.append(("deriv", ("Partial", t, "x", early)))
             items.append(("deriv", ("Partial", t, "y", early)))
             items.append(("deriv", ("Partial(Variable object)", t, "x", early)))
+            # variables that do not occur in the expression are still part of the object's identity
+            items.append(("deriv", ("Partial", t, "absent_1", early)))
+            items.append(("deriv", ("Partial", t, "absent_2", early)))
+            items.append(("deriv", ("Partial(Variable object)", t, "absent_2", early)))
         items.append(("deriv", ("LocatedDifferential", t, {"x": 1, "y": 2}, False)))
         items.append(("deriv", ("LocatedDifferential", t, {"y": 2, "x": 1}, False)))
         items.append(("deriv", ("LocatedDifferential", t, {"x": 1, "y": 3}, False)))
